@@ -91,6 +91,44 @@ def tv_groups(n, seed):
     return gs
 
 
+def long_fronts(chk, n_seq, seed):
+    """Fronts far larger than the grid of Filter.tla: long random sequences whose Pareto front grows to 30-80 entries, driven
+    through update() and compared step by step with a reference implementation of the statement (exploration-grade)."""
+    rng = np.random.default_rng(seed + 18)
+    prob = _Stub()
+    for t in range(n_seq):
+        N = int(rng.integers(30, 80))
+        chain = [(float(k), float(N - k)) for k in range(N)]
+        rng.shuffle(chain)
+        probes = [(a + 0.5, b + 0.5) for (a, b) in chain[: N // 3]] + [(a, b) for (a, b) in chain[N // 3: N // 2]]
+        sweepers = [(float(N // 4), float(N // 4)), (-1.0, float(N)), (0.0, 0.0)]
+        seq = chain + probes + sweepers + [(float(rng.integers(-2, N + 2)), float(rng.integers(-2, N + 2))) for _ in range(40)]
+        for cls in (ObjectivePenaltyFilter, LagrangianPenaltyFilter):
+            flt = cls(prob, Params(rho=0.5))
+            cur = {"p": None}
+            flt.iterate_entry = lambda it: cur["p"]
+            flt.initial(_It(0.0, 0.0)) if hasattr(flt, "initial") else None
+            flt.entries = []
+            ref, rho = [], flt.rho
+            for step, p in enumerate(seq):
+                cur["p"] = p
+                res = flt.update(_It(*p), _It(*p))
+                refused = any(e[0] <= p[0] and e[1] <= p[1] for e in ref)
+                if refused:
+                    rho *= 10.0
+                else:
+                    ref = [e for e in ref if not (p[0] <= e[0] and p[1] <= e[1])] + [p]
+                ok = (bool(res.accept) == (not refused) and float(res.next_rho) == rho and
+                      sorted(flt.entries) == sorted(ref))
+                chk.case(("longfront", t, cls.__name__, step))
+                if not ok:
+                    chk.kernel_violation(("filter.longfront", cls.__name__),
+                                         {"front_size": len(ref), "step": step, "point": list(p), "refused_expected": refused,
+                                          "accept_observed": bool(res.accept), "rho_expected": rho, "rho_observed": float(res.next_rho),
+                                          "entries_observed": len(flt.entries)})
+                    break
+
+
 def main():
     chk = Check("C18")
     # unbounded integers: the antichain property is an inductive invariant of filter_insert (Apalache, symbolic)
@@ -104,6 +142,7 @@ def main():
         chk.samples.append({"edge": {k: (sorted(v) if isinstance(v, frozenset) else v) for k, v in
                                      dict(states[min(7, len(states) - 1)]["last"], after=states[min(7, len(states) - 1)]["entries"]).items()}})
         chk.traces += n
+    long_fronts(chk, 40 if chk.thorough else 6, chk.seed)
     chk.tv(tv_groups(300 if chk.thorough else 40, chk.seed), "C18 end-to-end")
     return chk.finish(rule="Filter.tla is finite on a KxK grid: TLC covers all insertion histories (ties, duplicates); every reachable "
                            "state is one edge (before, pair, verdict, after) and is replayed on ObjectivePenaltyFilter and "
